@@ -954,12 +954,90 @@ def run_same_name(res, d):
                                           'detail': {'class': cname, 'instantiated_first': first, 'problem': bad[1]}})
 
 
+class _IfSrc(Logic):
+    """primitive producer whose ports come from an Interface"""
+    def __init__(self, parent, name, itf):
+        super().__init__(parent, name)
+        self.itf = self.addInterfaceSource('s', itf)
+
+    def propagate(self):
+        for n, w in self.itf.sourceToSink:
+            w.put(1)
+
+
+class _IfSink(Logic):
+    """primitive consumer whose ports come from an Interface (it drives the back channel)"""
+    def __init__(self, parent, name, itf):
+        super().__init__(parent, name)
+        self.itf = self.addInterfaceSink('k', itf)
+
+    def propagate(self):
+        for n, w in self.itf.sinkToSource:
+            w.put(1)
+
+
+def run_iface_ports(res, d):
+    """blocks whose ports are created through addInterfaceSource / addInterfaceSink are drivers like any other: a second producer
+    on the interface, or a second consumer on its back channel, is refused and the first driver stays; a producer/consumer pair
+    passes the integrity check; a lone consumer (forward wires undriven) does not"""
+    def mk():
+        hw = HWSystem()
+        itf = py4hw.Interface(hw, 'ch')
+        itf.addSourceToSink('data', 2)
+        itf.addSourceToSink('valid', 1)
+        itf.addSinkToSource('ready', 1)
+        return hw, itf
+
+    def viol(kind, case, detail):
+        res['violations'].append({'sig': 'C11:ifaceports:%s:%s' % (kind, case), 'shard': d, 'trace': [case], 'detail': detail})
+
+    for case, first, second in (('two_producers', _IfSrc, _IfSrc), ('two_consumers', _IfSink, _IfSink)):
+        hw, itf = mk()
+        a = first(hw, 'a', itf)
+        wires = [w for n, w in (itf.sourceToSink if first is _IfSrc else itf.sinkToSource)]
+        res['evaluations'] += 1
+        res['configs'] += 1
+        if any(w.getSource() is None or w.getSource().parent is not a for w in wires):
+            viol('driver-not-registered', case, {'wires': [w.name for w in wires if w.getSource() is None]})
+            continue
+        raised = None
+        try:
+            second(hw, 'b', itf)
+        except Exception as e:
+            raised = e
+        if raised is None:
+            viol('not-raised', case, {'note': 'a second primitive driver on the interface wires was accepted'})
+        elif any(w.getSource() is None or w.getSource().parent is not a for w in wires):
+            viol('earlier-driver-replaced', case, {})
+        else:
+            res['distinct_nontrivial'] += 1
+    hw, itf = mk()
+    _IfSrc(hw, 'p', itf)
+    _IfSink(hw, 'c', itf)
+    res['evaluations'] += 1
+    try:
+        with core.quiet():
+            py4hw.debug.checkIntegrity(hw)
+    except Exception as e:
+        viol('integrity-refuses-driven-design', 'pair', {'raised': repr(e)[:200]})
+    hw, itf = mk()
+    _IfSink(hw, 'c', itf)
+    res['evaluations'] += 1
+    try:
+        with core.quiet():
+            py4hw.debug.checkIntegrity(hw)
+        viol('integrity-accepts-undriven', 'lone_consumer', {'note': 'data/valid have no driver'})
+    except Exception:
+        res['distinct_nontrivial'] += 1
+
+
 def run_names(d):
     import itertools
     res = {'part': 'names', 'evaluations': 0, 'distinct_nontrivial': 0, 'configs': 0, 'violations': [], 'samples': [],
            'traces_validated_against_impl': 0, 'transitions': 0, 'distinct_outcomes': 2, 'vacuous_ok': True}
     if d.get('first') is None:
         run_same_name(res, d)
+        run_iface_ports(res, d)
         return res
     seen = set()
     for n in range(0, d['D']):
@@ -1010,6 +1088,7 @@ def replay(v):
         if v['shard'].get('first') is None:
             r = {'evaluations': 0, 'configs': 0, 'distinct_nontrivial': 0, 'violations': []}
             run_same_name(r, v['shard'])
+            run_iface_ports(r, v['shard'])
             hit = [x for x in r['violations'] if x['sig'] == v['sig']]
             return {'violates': bool(hit), 'detail': hit[:1]}
         r = run_names_history([tuple(o) for o in v['trace']])
